@@ -105,7 +105,8 @@ KANI_GROUPS = {
         src="kani/renko.rs", append_to="src/methods/renko.rs", module="methods::renko::verif_renko",
         harnesses=[dict(name="vk_renko_boundary_concrete", kind="bounded(one concrete boundary price)", timeout=300, tier="quick"),
                    dict(name="vk_renko_up_symbolic", kind="complete", timeout=600, tier="quick"),
-                   dict(name="vk_renko_down_symbolic", kind="complete", timeout=600, tier="quick")]),
+                   dict(name="vk_renko_down_symbolic", kind="complete", timeout=600, tier="quick"),
+                   dict(name="vk_sequence_collapse_timeframe_l4", kind="bounded(Sequence::collapse_timeframe over 4 candles with integer fields in 0..=15, size 2, both modes)", timeout=900, tier="quick", props=["C17"])]),
     "text": dict(
         src="kani/text.rs", append_to="src/core/candles.rs", module="core::candles::verif_text",
         # vk_source_text_roundtrip / vk_source_parse_total_len3 (symbolic strings) stay in the file but are not registered: CBMC does not finish them
@@ -406,7 +407,7 @@ PROPS["C17"] = dict(
            "emits at least one brick exactly when the price has reached the next boundary, the count being the number of whole bricks, the new bounds the last "
            "brick, the bricks carrying the volume consumed since the previous emission. The float-level boundary case (quotient truncating to 0) is decided "
            "bit-precisely by Kani: one concrete boundary price in the quick tier, symbolic state and price (loop-free, complete) in the thorough tier."),
-    assumptions=[REALS + " for the Verus part", "Sequence::collapse_timeframe (windows/step_by/reduce) and RenkoOutput::{nth,last} (`mut self`) are not under contract",
+    assumptions=[REALS + " for the Verus part", "Sequence::collapse_timeframe (windows/step_by/map/collect, outside the Verus subset) is not under a deductive contract: one bounded Kani harness (4 candles, size 2, continuous and non-continuous) checks it against the aggregation rule; RenkoOutput::{nth,last} (`mut self`) are not under contract",
                  "prices are positive (input_ok), as in the property's valid-candle streams"],
 )
 PROPS["C18"] = dict(
